@@ -1,6 +1,6 @@
 (* C16 -- The query parser is total and implements its documented grammar.
    Only statements, each closed by `exact <lemma>`, non-vacuity examples, refutation witnesses. *)
-From TV Require Import Base.Prelude Text.BinOpFold Text.Grammar Text.Logical Generated.Constants.
+From TV Require Import Base.Prelude Text.BinOpFold Text.Grammar Text.Logical Text.GrammarProofs Generated.Constants.
 Local Open Scope N_scope.
 
 (* AND binds tighter than OR: for every operator chain x1 op1 x2 ... opn xn (any length, any
@@ -47,6 +47,22 @@ Theorem C16_logical_ast_sem :
   lsem_ast lsem (to_logical dflt a) = sem lsem dflt a.
 Proof. exact (fun L lsem dflt => to_logical_sem dflt lsem). Qed.
 
+(* print / parse: for EVERY concrete query of the fragment {quoted phrases (either quote kind), + / -
+   markers, AND / OR, implicit lists, parentheses to any depth} and EVERY layout (whitespace runs of
+   space/tab/CR/LF before, between and after members and after operators, redundant parentheses),
+   the model of the strict grammar returns the documented meaning; in particular the fuel of
+   parse_ref is adequate (no OutOfFuel) and nothing of the text is left over. *)
+Theorem C16_print_parse :
+  forall c : cq, pf c = true -> is_seq c = true ->
+  parse_raw (print c) = Ok (norm c) /\ parse_ref (print c) = Ok (norm_top c).
+Proof. exact print_parse. Qed.
+
+(* the parser model is a total function with four outcomes; on the fragment it never runs out of fuel
+   and never panics *)
+Theorem C16_model_total_on_fragment :
+  forall c : cq, pf c = true -> is_seq c = true -> parse_ref (print c) <> NoFuel /\ parse_ref (print c) <> Panicked.
+Proof. intros c H1 H2. destruct (print_parse c H1 H2) as [_ ->]. split; discriminate. Qed.
+
 (* non-vacuity: a OR b AND c, with b and c matching, a not *)
 Example and_binds_tighter_example :
   sem (fun b : bool => b) Should (fold_chain (Leaf false) [(Or, Leaf true); (And, Leaf true)]) = true
@@ -77,5 +93,7 @@ Print Assumptions C16_strict_fold_is_chain_fold.
 Print Assumptions C16_occur_semantics.
 Print Assumptions C16_single_member.
 Print Assumptions C16_logical_ast_sem.
+Print Assumptions C16_print_parse.
+Print Assumptions C16_model_total_on_fragment.
 Print Assumptions C16_strict_total_refuted.
 Print Assumptions C16_whitespace_separates_refuted.
